@@ -35,4 +35,5 @@ def main(tier):
     chk.run("R-TRAVPARAM", T.travparam, r, s, sr_sites, floor=30, control=lambda: T.control_travparam(r))
     chk.run("R-SCOPECHAIN", RR.scopechain, r, floor=2)
     chk.run("R-REFHEAD", RR.refhead, cx.repo, floor=1)
+    chk.run("R-CONSTREFKIND", RR.constrefkind, cx.repo, floor=2)
     return chk.finish()
